@@ -9,6 +9,7 @@ import (
 	"path/filepath"
 	"sort"
 	"strings"
+	"sync"
 
 	"golang.org/x/tools/go/callgraph"
 	"golang.org/x/tools/go/callgraph/cha"
@@ -38,6 +39,8 @@ type Prog struct {
 
 	funcOfDecl map[*ast.FuncDecl]*ssa.Function
 	nInstr     int
+	memoMu     sync.Mutex
+	memoM      map[string]interface{}
 }
 
 type LoadOpts struct {
